@@ -512,3 +512,132 @@ def canonical_locals(func_node):
                         if isinstance(x, ast.Name) and x.id in accs and x.id not in mapping:
                             mapping[x.id] = f"ACC_{k.arg}"
     return mapping
+
+
+def decision_function(func_node, name, mapping=None, value_expr=None):
+    """Semantic form of the value a plain local `name` ends up with: a table {assignment of the atomic propositions it
+    depends on -> value text}, obtained by evaluating the if/else statements and conditional expressions that assign it
+    under every truth assignment.  `X if X is None ...` and `None if X is None ...` are the same function: under an
+    assignment where `<v> is None` holds, the value text `None` is written as `<v>`.  Returns (atom names, table)."""
+    stmts = func_node.body if value_expr is None else []
+    atoms = {}
+
+    def collect_expr(e):
+        if isinstance(e, ast.IfExp):
+            bool_atoms(alpha(e.test, mapping) if mapping else e.test, atoms)
+            collect_expr(e.body)
+            collect_expr(e.orelse)
+
+    def assigns_name(block):
+        return any(isinstance(x, ast.Assign) and len(x.targets) == 1 and isinstance(x.targets[0], ast.Name) and x.targets[0].id == name
+                   for s in block for x in ast.walk(s))
+
+    def collect(block):
+        for s in block:
+            if isinstance(s, ast.Assign) and len(s.targets) == 1 and isinstance(s.targets[0], ast.Name) and s.targets[0].id == name:
+                collect_expr(s.value)
+            elif isinstance(s, ast.If) and (assigns_name(s.body) or assigns_name(s.orelse)):
+                bool_atoms(alpha(s.test, mapping) if mapping else s.test, atoms)
+                collect(s.body)
+                collect(s.orelse)
+            elif isinstance(s, (ast.For, ast.While, ast.With, ast.Try)):
+                for fld in ("body", "orelse", "finalbody"):
+                    collect(getattr(s, fld, []) or [])
+                for h in getattr(s, "handlers", []) or []:
+                    collect(h.body)
+
+    if value_expr is not None:
+        collect_expr(value_expr)
+    else:
+        collect(stmts)
+    names = sorted(atoms)
+    if len(names) > 10:
+        raise ValueError("too many atoms in decision function")
+
+    def ev_expr(e, a):
+        while isinstance(e, ast.IfExp):
+            t = alpha(e.test, mapping) if mapping else e.test
+            e = e.body if eval_bool(t, a) else e.orelse
+        return norm(alpha(e, mapping) if mapping else e)
+
+    def run(block, a, cur):
+        for s in block:
+            if isinstance(s, ast.Assign) and len(s.targets) == 1 and isinstance(s.targets[0], ast.Name) and s.targets[0].id == name:
+                cur = ev_expr(s.value, a)
+            elif isinstance(s, ast.If) and (assigns_name(s.body) or assigns_name(s.orelse)):
+                t = alpha(s.test, mapping) if mapping else s.test
+                cur = run(s.body if eval_bool(t, a) else s.orelse, a, cur)
+            elif isinstance(s, (ast.For, ast.While, ast.With, ast.Try)):
+                for fld in ("body", "orelse", "finalbody"):
+                    cur = run(getattr(s, fld, []) or [], a, cur)
+        return cur
+
+    table = {}
+    for bits in range(1 << len(names)):
+        a = {names[i]: bool(bits >> i & 1) for i in range(len(names))}
+        v = ev_expr(value_expr, a) if value_expr is not None else run(stmts, a, None)
+        if v == "None":
+            for n_, val in a.items():
+                if val and n_.endswith(" is None"):
+                    v = n_[: -len(" is None")]
+                    break
+        table[tuple(a[n_] for n_ in names)] = v
+    # project away atoms the value does not depend on
+    dep = [i for i in range(len(names)) if any(table[k] != table[k[:i] + (not k[i],) + k[i + 1:]] for k in table)]
+    proj = {}
+    for k, v in table.items():
+        proj[tuple(k[i] for i in dep)] = v
+    return tuple(names[i] for i in dep), proj
+
+
+def boolean_verdict(func_node):
+    """(atom names, {assignment -> bool}) of a function whose body is a decision of `return <boolean expression>`
+    statements (guards, early `return False`, nested ifs); None when some path does not end in such a return."""
+    atoms = {}
+
+    def collect(block):
+        for s in block:
+            if isinstance(s, ast.If):
+                bool_atoms(s.test, atoms)
+                collect(s.body)
+                collect(s.orelse)
+            elif isinstance(s, ast.Return) and s.value is not None and not isinstance(s.value, ast.Constant):
+                bool_atoms(s.value, atoms)
+
+    collect(func_node.body)
+    names = sorted(atoms)
+    if len(names) > 10:
+        return None
+
+    class _NoVerdict(Exception):
+        pass
+
+    def run(block, a):
+        for s in block:
+            if isinstance(s, ast.Expr) and isinstance(s.value, ast.Constant):
+                continue
+            if isinstance(s, ast.Return):
+                if s.value is None:
+                    raise _NoVerdict
+                if isinstance(s.value, ast.Constant):
+                    return bool(s.value.value)
+                return eval_bool(s.value, a)
+            if isinstance(s, ast.If):
+                r = run(s.body if eval_bool(s.test, a) else s.orelse, a)
+                if r is not None:
+                    return r
+                continue
+            raise _NoVerdict
+        return None
+
+    table = {}
+    try:
+        for bits in range(1 << len(names)):
+            a = {names[i]: bool(bits >> i & 1) for i in range(len(names))}
+            r = run(func_node.body, a)
+            if r is None:
+                return None
+            table[tuple(a[n] for n in names)] = r
+    except _NoVerdict:
+        return None
+    return tuple(names), table
